@@ -618,3 +618,4 @@ for _p in ("C11", "C17"):
 PROPS["C16"]["rule"] += (" Both parts also generate cron expressions without a future occurrence (which must never fire; refusing them is "
                          "fine) and, for crolt, absolute RFC3339 due times.")
 PROPS["C16"]["rule"] += " No job may fire inside a span in which the cron is certainly suspended (from the moment the loop has taken the suspend command to the call of Resume)."
+PROPS["C18"]["rule"] += " Further error classes: an ill-typed id, an ill-typed uri (carried by a body or a batch element), an ill-typed set."
